@@ -511,9 +511,18 @@ class reader( object ):
                 # processing mode; it is not likely safe for them to try again, because they'll
                 # probably process the same file and get the same error.  Report the file and
                 # timestamp so it can be fixed, if necessary...  If empty file, raise StopIteration
-                try:
-                    n,(ts,sn,js) = parse_record( fd, n=n, encoding=encoding )
-                except StopIteration:
+                ts		= None
+                while ts is None:
+                    try:
+                        n,(ts,sn,js) = parse_record( fd, n=n, encoding=encoding )
+                    except StopIteration:
+                        break
+                    except Exception as exc:
+                        # Unparsable record (not the file's first); report (None,None), carry on
+                        n	       += 1
+                        log.warning( "%s Ignoring unparsable record in %s, line %d: %s", self, self.name+f, n, exc )
+                        yield (f,n,cur),(None,None)
+                if ts is None:
                     break
 
                 # a valid (ts,js) has been parsed; loop to advancing historical time, and return it
